@@ -2,6 +2,7 @@
 from .. import backtest
 from ..oracles.ledger import LedgerMonitor
 from ..oracles.lifecycle import LifecycleMonitor
+from ..oracles.requests import RejectionMonitor
 from . import common, lifecycle_common
 
 ID = "C03"
@@ -16,7 +17,7 @@ ASSUMPTIONS = [
 from . import C11 as _c11
 
 COMPONENTS = dict(common.COMPONENTS_A, world_B=_c11.COMPONENTS)
-MONITORS = [LedgerMonitor, LifecycleMonitor]
+MONITORS = [LedgerMonitor, LifecycleMonitor, RejectionMonitor]
 
 
 def generate(rng, i, tier):
@@ -39,7 +40,7 @@ def execute(scenario):
     if scenario.get("world") == "B":
         from .. import live
 
-        return live.run_scenario(scenario, [LifecycleMonitor], owner=ID)
+        return live.run_scenario(scenario, [LifecycleMonitor, RejectionMonitor], owner=ID)
     return backtest.run_scenario(scenario, MONITORS, owner=ID)
 
 
